@@ -1192,6 +1192,27 @@ func orphanOfKind(ioc *sonic.IO, kind string, dir string) (*orphanHandle, error)
 		h.complete = func() { _, _ = syscall.Write(peer, []byte("x")) }
 		// the net.Conn is the harness's (the adapter only borrows its descriptor): it is closed at the end of the case
 		h.cleanup = append(h.cleanup, func() { _ = nc.Close(); _ = syscall.Close(peer) })
+	case "adapterWrite":
+		fds, err := syscall.Socketpair(syscall.AF_UNIX, syscall.SOCK_STREAM|syscall.SOCK_CLOEXEC, 0)
+		if err != nil {
+			return nil, err
+		}
+		f := os.NewFile(uintptr(fds[0]), "sp")
+		nc, err := net.FileConn(f)
+		_ = f.Close()
+		if err != nil {
+			return nil, err
+		}
+		var ad *sonic.AsyncAdapter
+		sonic.NewAsyncAdapter(ioc, nc.(*net.UnixConn), nc, func(err error, a *sonic.AsyncAdapter) { ad = a })
+		if ad == nil {
+			return nil, fmt.Errorf("NewAsyncAdapter failed")
+		}
+		// an adapter never writes inline: the write waits for the poller to report the socket writable
+		ad.AsyncWrite([]byte("hello"), func(error, int) { atomic.AddInt32(done, 1); runtime.KeepAlive(s) })
+		peer := fds[1]
+		h.complete = func() {}
+		h.cleanup = append(h.cleanup, func() { _ = nc.Close(); _ = syscall.Close(peer) })
 	case "fifo":
 		path := filepath.Join(dir, "fifo")
 		if err := syscall.Mkfifo(path, 0o600); err != nil {
@@ -1248,7 +1269,7 @@ func TestC13_OwnerStaysAliveOtherKinds(t *testing.T) {
 		defer ioc.Close()
 		dir, _ := os.MkdirTemp("", "verif-fds-")
 		defer os.RemoveAll(dir)
-		kind := rapid.SampledFrom([]string{"packet", "peer", "listener", "adapter", "fifo", "timer"}).Draw(rt, "kind")
+		kind := rapid.SampledFrom([]string{"packet", "peer", "listener", "adapter", "adapterWrite", "fifo", "timer"}).Draw(rt, "kind")
 		h, err := orphanOfKind(ioc, kind, dir)
 		if err != nil {
 			rt.Fatalf("INFRA: %s: %v", kind, err)
@@ -1272,7 +1293,7 @@ func TestC13_OwnerStaysAliveOtherKinds(t *testing.T) {
 			runtime.GC()
 			time.Sleep(time.Millisecond)
 		}
-		if f := atomic.LoadInt32(h.final); f != 0 {
+		if f := atomic.LoadInt32(h.final); f != 0 && atomic.LoadInt32(h.done) == 0 {
 			rt.Fatalf("%s: the object was garbage collected while its operation was in flight (Pending()=%d): the callback's sentinel was finalized", kind, ioc.Pending())
 		}
 		h.complete()
